@@ -189,16 +189,24 @@ def _make_public_contract(fn, name):
             STATE.count("M-alias")
             if result.ndim >= 2 and result.shape[0] == result.shape[1] and result.size:
                 sc = float(np.abs(result).max()) if np.all(np.isfinite(result)) else np.inf
-                if np.isfinite(sc):
+                if np.isfinite(sc) and (name in SYMMETRIC or name in HERMITIAN):
+                    # floor: rounding noise of elements that vanish by symmetry scales with the largest
+                    # exponent (kinetic-type scale); precise, conditioning-aware checks live in C08/C11
+                    amax = 1.0
+                    try:
+                        amax += max(float(np.max(sh.exps)) for sh in _ARGS[0])
+                    except Exception:
+                        pass
+                    floor = 1e-10 * amax
                     if name in SYMMETRIC:
                         d = float(np.abs(result - np.swapaxes(result, 0, 1)).max())
                         STATE.count("M-sym")
-                        if d > 1e-9 * max(sc, 1e-300):
+                        if d > 1e-9 * sc + floor:
                             STATE.fire("M-sym", "C11", name, "asymmetry %.3e of scale %.3e" % (d, sc))
                     elif name in HERMITIAN:
                         d = float(np.abs(result - np.conj(np.swapaxes(result, 0, 1))).max())
                         STATE.count("M-herm")
-                        if d > 1e-9 * max(sc, 1e-300):
+                        if d > 1e-9 * sc + floor:
                             STATE.fire("M-herm", "C08", name, "non-Hermitian by %.3e of scale %.3e" % (d, sc))
         return True
 
